@@ -140,7 +140,7 @@ def mkJudges (O : Oracles) (defs : String → Option Schema) : Judges :=
     items := fun path _ rootFmt chain v =>
       match chainToSSchema chain, jvalToGoDeep v with
       | _, .nil => {}
-      | some ss, gv => simpleRes (path ++ ".0") (Simple.validateAux O false 8 .items rootFmt ss gv)
+      | some ss, gv => simpleRes (path ++ ".0") (Simple.validateAux O false (ss.depth + 1) .items rootFmt ss gv)
       | none, _ => {} }
 
 /-- every `$ref` occurring anywhere in a schema -/
